@@ -1,6 +1,7 @@
 (* C02 -- Zero-copy sample lifetime: no reuse while referenced, no leak after (publish-subscribe
    part; the request-response part belongs to C11).
-   Only statements; proofs in proofs/ConnProofs.v and proofs/PortProofs.v.
+   Only statements; proofs in proofs/ConnProofs.v, proofs/PortProofs.v and (world-level induction)
+   proofs/PortView.v, PortInv.v, PortInvPub.v, PortInvSub.v, PortInvLife.v, PortInvStep.v, PortInvRefl.v.
 
    The conservation invariant is model/Port.v inv_check (executable): for every ACTIVE publisher p
    and every chunk o of its data segment
@@ -12,13 +13,50 @@
    and every live sample of a registered subscriber still has its connection in the table of its
    (active) publisher.  `borrowed c` = the live Samples received through c, whether or not their
    Subscriber object still exists. *)
-From V Require Import model.Base model.Conn model.Port proofs.ConnProofs proofs.PortProofs.
+From V Require Import model.Base model.Conn model.Port proofs.ConnProofs proofs.PortProofs proofs.PortView proofs.PortInv
+  proofs.PortInvStep proofs.PortInvRefl.
 
-(* NOT PROVED at world level: every state reachable by any history of API calls of any number of
-   ports, for every QoS tuple, satisfies the invariant.  Evaluated by the tie on the model state
-   after every operation of every history (kind=spec key pubsub:conservation-invariant). *)
-Definition c02_conservation_full : Prop :=
-  forall c h w obs, run (world_new c) h = Val (w, obs) -> inv_check w = true.
+(* PROVED by induction over the history, for any number of publishers and subscribers and every
+   QoS tuple: the world invariant InvR (proofs/PortInv.v; propositions: per active publisher the
+   conservation equations above, per live subscriber the consistency of its connection table,
+   storage, free keys and expired-connection list, the topology between both sides, both
+   registries) holds initially (world_new_ok) and is preserved by EVERY operation of the history
+   alphabet (step_ok; one lemma per function of model/Port.v: pub_create_ok, pub_drop_ok,
+   sub_create_ok, sub_drop_ok, do_loan_ok, pub_write_ok, do_send_ok (pub_send_sample_ok with the
+   handler micro-steps run_hacts_ok, pub_update_connections_ok, deliver_history_ok,
+   pub_deliver_all_ok), loan_drop_ok, sub_receive_ok, sample_drop_ok, sub_has_samples_ok,
+   sub_update_connections_ok, exhaust_loans_ok/drop_all_ok); it implies the executable inv_check
+   (Inv_inv_check).
+   The only hypothesis: cfg_fits c, i.e. max_subscribers + history_size + 4 < 2^64 (the reference
+   counters of the data segment are u64). *)
+Theorem c02_world_invariant : forall c w, cfg_fits c -> reachable c w -> InvR w.
+Proof. exact reachable_InvR. Qed.
+Print Assumptions c02_world_invariant.
+
+Theorem c02_invariant_initial : forall c, cfg_fits c -> InvR (world_new c).
+Proof. exact world_new_ok. Qed.
+Print Assumptions c02_invariant_initial.
+
+Theorem c02_invariant_step : forall w o w' ob, InvR w -> step w o = Val (w', ob) -> InvR w'.
+Proof. exact step_ok. Qed.
+Print Assumptions c02_invariant_step.
+
+Theorem c02_invariant_reflects : forall w, Inv w -> inv_check w = true.
+Proof. exact Inv_inv_check. Qed.
+Print Assumptions c02_invariant_reflects.
+
+Theorem c02_conservation_full :
+  forall c h w obs, cfg_fits c -> run (world_new c) h = Val (w, obs) -> inv_check w = true.
+Proof. exact reachable_inv_check. Qed.
+Print Assumptions c02_conservation_full.
+
+(* the saturating history (every chunk of the segment in use) is a reachable world of a fitting
+   configuration *)
+Example c02_conservation_full_nonvacuous :
+  cfg_fits cfg_sat /\ (exists obs, run (world_new cfg_sat) sat_history = Val (sat_world, obs))
+  /\ p_free (getp sat_world 0) = [].
+Proof. split; [reflexivity|]. destruct sat_witness as (A & _ & B & _). auto. Qed.
+Print Assumptions c02_conservation_full_nonvacuous.
 
 (* PROVED: the base case for every configuration, and the connection-local part for every operation
    of a connection: each of try_send / receive / release / reclaim maps an invariant-satisfying
@@ -96,12 +134,15 @@ Proof. vm_compute. repeat split. do 2 eexists. reflexivity. Qed.
 Print Assumptions c02_no_reuse_partial_nonvacuous.
 
 (* ---- no leak ------------------------------------------------------------------------------ *)
-(* NOT PROVED as a statement about histories (it is c02_conservation_full + the theorem below):
-   after any history, once every holder is gone, the publisher can loan its full L samples again *)
-Definition c02_no_leak_full : Prop :=
-  forall c h w obs p, run (world_new c) h = Val (w, obs) -> pub_live w p = true ->
+(* PROVED (c02_conservation_full + the theorem below): after any history, once every holder is
+   gone, every chunk of a live publisher is on the free list again with counter 0 *)
+Theorem c02_no_leak_full :
+  forall c h w obs p, cfg_fits c -> run (world_new c) h = Val (w, obs) -> pub_live w p = true ->
     (forall o, o < p_n (getp w p) -> holders w p o = 0) ->
-    length (p_free (getp w p)) = p_n (getp w p).
+    length (p_free (getp w p)) = p_n (getp w p)
+    /\ (forall o, o < p_n (getp w p) -> nth o (p_refcnt (getp w p)) 0%N = 0%N).
+Proof. exact reachable_no_leak. Qed.
+Print Assumptions c02_no_leak_full.
 
 (* PROVED for every state that satisfies the invariant: when no loan, no history entry and no
    connection refers to any chunk, every chunk is on the free list and every counter is 0 *)
